@@ -600,18 +600,38 @@ def step (ds : DState) (line : String) : DState × String :=
   | ["defpkg", dn, id, v] => ({ ds with defPkgs := (dn ++ " " ++ id, v) :: ds.defPkgs }, "ok")
   | ["dtype", dn, id] => (ds, (ds.defPkgs.lookup (dn ++ " " ++ id)).getD "none")
   | ["dinit", dn] =>
-    (ds, match Dialect.init ((ds.allDefs.lookup dn).getD []) [] with
-      | .ok tbl => s!"ok n={tbl.length}"
-      | .error (.duplicate id) => s!"err:duplicate-{id}"
-      | .error (.msg id _) => s!"err:message-{id}")
+    (ds, let defs := (ds.allDefs.lookup dn).getD []
+      let m := match Dialect.init defs [] with
+        | .ok tbl => s!"ok n={tbl.length}"
+        | .error (.duplicate id) => s!"err:duplicate-{id}"
+        | .error (.msg id _) => s!"err:message-{id}"
+      -- SPEC: a dialect initialises iff its ids are pairwise distinct and every struct is a definition; otherwise the first
+      -- offender in declaration order is reported (a duplicate is noticed when its second occurrence is reached)
+      let rec firstBad (seen : List UInt32) : List (UInt32 × Msg.GoStruct) → Option String
+        | [] => none
+        | (id, st) :: r =>
+          if seen.contains id then some s!"err:duplicate-{id}"
+          else if (Spec.Msg.ofGo st).isNone then some s!"err:message-{id}"
+          else firstBad (id :: seen) r
+      let sp := match firstBad [] defs with
+        | some e => e
+        | none => s!"ok n={defs.length}"
+      m ++ "\t" ++ sp)
   | ["dget", dn, id] =>
     (ds, match id.toNat?, Dialect.init ((ds.allDefs.lookup dn).getD []) [] with
       | some i, .ok tbl =>
-        (match Dialect.getMessage tbl (UInt32.ofNat i) with
+        let m := (match Dialect.getMessage tbl (UInt32.ofNat i) with
         | some rw =>
           let nm := (((ds.allDefs.lookup dn).getD []).lookup (UInt32.ofNat i)).map (·.name)
           s!"crc={rw.crcExtra} name={nm.getD "?"}"
         | none => "none")
+        -- SPEC: the codec of the message declared with exactly that id, nothing for any other id
+        let sp := match ((ds.allDefs.lookup dn).getD []).find? (fun d => d.1.toNat == i) with
+          | some (_, st) => (match Spec.Msg.ofGo st with
+              | some d => s!"crc={Spec.Msg.crcExtra d} name={st.name}"
+              | none => "-")
+          | none => "none"
+        m ++ "\t" ++ sp
       | _, _ => "bad-op")
   | ["hop", dn, stream, hops] =>
     (ds, match decStream stream, hops.toNat? with
@@ -666,6 +686,25 @@ def step (ds : DState) (line : String) : DState × String :=
             | none => "wrote:" ++ toHex (be64 (Int64.ofInt e).toUInt64 ++ bs))
         enc (Tlog.writeEntry wd e fr failAt) ++ "\t" ++ spec
       | _, _ => "bad-op")
+  | ["tlogws", dn, entries] =>
+    (ds, let wd := wdialect (ds.get ((dn.splitOn "@").headD dn))
+      match (entries.splitOn ";").mapM (fun it => match it.splitOn "@" with
+          | [ep, f] => (match ep.toInt?, decFrame f with | some e, some fr => some (e, fr) | _, _ => none)
+          | _ => none) with
+      | none => "bad-op"
+      | some es =>
+        -- MODEL: the writer keeps no state between entries (one Write call per accepted entry)
+        let m := es.foldl (fun (acc : List String × Bytes) (e : Int × Frame) =>
+          match Tlog.writeEntry wd e.1 e.2 none with
+          | .wrote bs => (acc.1 ++ ["w"], acc.2 ++ bs)
+          | .failed bs err => (acc.1 ++ ["f:" ++ encWErr err], acc.2 ++ bs)) ([], [])
+        -- SPEC: the file is the concatenation of [timestamp][frame] of the ACCEPTED entries, nothing else
+        let sp := es.foldl (fun (acc : List String × Bytes) (e : Int × Frame) =>
+          match frameWrite wd e.2 with
+          | .error err => (acc.1 ++ ["f:" ++ encWErr err], acc.2)
+          | .ok (bs, _) => (acc.1 ++ ["w"], acc.2 ++ be64 (Int64.ofInt e.1).toUInt64 ++ bs)) ([], [])
+        let enc (x : List String × Bytes) := ",".intercalate x.1 ++ "|" ++ (if x.2.isEmpty then "-" else toHex x.2)
+        enc m ++ "\t" ++ enc sp)
   | "tlogr" :: dn :: stream :: _ =>
     (ds, match decStream stream with
       | some s =>
